@@ -107,24 +107,25 @@ void File::close() {
 
     /* read */
     if (m_openMode & std::ios_base::in) {
-        /* finalize compressedFileThread */
-        m_compressedFileThreadRunning = false;
-        m_compressedFile.close();
+        /*
+         * Stop the stages in the direction of the data flow's end first: the
+         * uncompressedFileThread completes the object it is decoding (the
+         * compressedFileThread still provides its data), so no object is
+         * decoded from a partially available stream.
+         */
 
         /* finalize uncompressedFileThread */
         m_uncompressedFileThreadRunning = false;
-        m_uncompressedFile.abort();
-
-        /* abort readWriteQueue */
         m_readWriteQueue.abort();
-
-        /* finalize compressedFileThread */
-        if (m_compressedFileThread.joinable())
-            m_compressedFileThread.join();
-
-        /* finalize uncompressedFileThread */
         if (m_uncompressedFileThread.joinable())
             m_uncompressedFileThread.join();
+
+        /* finalize compressedFileThread */
+        m_compressedFileThreadRunning = false;
+        m_uncompressedFile.abort();
+        if (m_compressedFileThread.joinable())
+            m_compressedFileThread.join();
+        m_compressedFile.close();
     }
 
     /* write */
